@@ -4,3 +4,4 @@ import Crem.Properties.C06
 import Crem.Properties.C04
 import Crem.Properties.C07
 import Crem.Properties.C09
+import Crem.Properties.C18
